@@ -291,6 +291,32 @@ func runC01(c *ctx) error {
 		}
 		prevSig, prevPayload = sig, payload0
 	}
+	// integers beyond 2^53 inside a plugin config (recorded finding F12): a change between neighbouring values
+	// must invalidate the signature like any other change
+	{
+		k := keys[0]
+		mk := func(n int) *pipeline.CommandStep {
+			return &pipeline.CommandStep{Command: "x", Plugins: pipeline.Plugins{{Source: "p#v1", Config: map[string]any{"n": n}}}}
+		}
+		check := func(a, b int, match string) {
+			sig, _, err := signStep(k, mk(a), "r", nil)
+			if err != nil {
+				return
+			}
+			c.res.OracleChecks++
+			if verr, _, _ := verifyStep(k, sig, mk(b), "r", nil); verr == nil {
+				f := core.OracleFailure{What: "verification verdict after mutation: an integer in a plugin config changed", Input: map[string]any{"signed": a, "verified": b}, Got: "ok", Want: "err"}
+				if match != "" {
+					if id, ok := c.known.has(match); ok {
+						f.Known = id
+					}
+				}
+				c.res.Fail(f)
+			}
+		}
+		check(9007199254740993, 9007199254740992, "bigint-jcs-rounding")
+		check(9007199254740991, 9007199254740990, "")
+	}
 	c.res.Rule = "command steps of generated pipelines signed with every key kind; for each, every applicable single-point mutation of the step (command, env, plugins incl. reorder/canonical spelling, matrix), the verification env, the repository URL, the signature record (algorithm, field list: drop mandatory / drop signed env / garbage / unsigned env:: / reorder+duplicate / empty, value corrupted or spliced from another step) and the key; expected verdict by construction. Non-trivial = a real mutation; distinct by (mutation, signed payload)."
 	mm, total, err := core.RunSessions(c.driver, []*core.Session{sess}, 20, 0)
 	c.res.ModelRequests = total
